@@ -1,7 +1,7 @@
 (* C20 — Same definition and input always give the same result and the same text. *)
 From GO Require Import Base.Str Base.Sort Model.Tokenizer Model.Option Model.Tree Model.Parse Model.Help Model.Dispatch.
 From GO Require Import Proofs.ParseLemmas Proofs.Match Proofs.HelpLemmas Proofs.Perm Proofs.PermParse Proofs.PermRev Proofs.Unknown.
-From GO Require Import Run.Check Model.Complete Proofs.CompletePerm Proofs.CompleteE2E Proofs.HelpPerm.
+From GO Require Import Run.Check Model.Complete Proofs.CompletePerm Proofs.CompleteE2E Proofs.HelpPerm Proofs.DispatchPerm.
 From Coq Require Import Sorting.Permutation Sorting.Sorted.
 
 (* Go's unspecified map iteration order is "any permutation of the association list".  Every place
@@ -134,3 +134,26 @@ Theorem C20_help_output_order_independent :
 Proof. exact help_output_order_independent. Qed.
 Print Assumptions C20_help_output_order_independent.
 
+
+(* Dispatch (help interception, missing-required report, the command function that runs, the
+   error when a command has no function) on two trees and two parse results that differ only in
+   table order: same outcome, the same text, the same arguments; the values the command function
+   sees are the same up to the order of the option table ([dsim]).  [allwf]: the current node and
+   its ancestor levels are nodes whose command tables have distinct keys and distinct names. *)
+Theorem C20_dispatch_order_independent :
+  forall specs root root' s s' rem,
+    nsim root root' -> ssim s s' -> allwf s -> allwf s' ->
+    dsim (dispatch specs root s rem) (dispatch specs root' s' rem).
+Proof. exact dispatch_order_independent. Qed.
+Print Assumptions C20_dispatch_order_independent.
+
+(* Parse followed by Dispatch, end to end: [allwf] holds of every state the parser returns when
+   the tree is well formed ([wfh]), so the only hypotheses left are on the two trees *)
+Theorem C20_parse_dispatch_order_independent :
+  forall pf md lower ro specs root root' st0 args w s rem w' s' rem',
+    nsim root root' -> wfh root -> wfh root' ->
+    parse pf md lower ro specs root st0 args = mkRes w (Ok (s, rem)) ->
+    parse pf md lower ro specs root' st0 args = mkRes w' (Ok (s', rem')) ->
+    rem = rem' /\ dsim (dispatch specs root s rem) (dispatch specs root' s' rem').
+Proof. exact parse_dispatch_order_independent. Qed.
+Print Assumptions C20_parse_dispatch_order_independent.
